@@ -130,6 +130,7 @@ type Sim struct {
 	Tip    *MNode
 	Held   []*MNode
 	seq    int
+	minSeq int
 	extra  uint64
 	quiet  bool
 	Cfg    Config
@@ -564,6 +565,9 @@ func (s *Sim) settle(n, oldTip *MNode, gerr error, what string, fuzzy bool) erro
 					if s.Open != nil && s.Open("F21-tie-after-failed-reorg") {
 						s.ExcludedKeys = append(s.ExcludedKeys, "F21-tie-after-failed-reorg")
 						s.Tip = m
+						// from now on the node's choice is the incumbent of this tie
+						s.minSeq--
+						m.Seq = s.minSeq
 					}
 				}
 			}
